@@ -882,7 +882,9 @@ impl Gen {
         (k, var)
     }
     fn cred(&mut self) -> J {
-        match self.rng.gen_range(0..100) {
+        // before any token can exist a pairing credential is just a wrong string: mostly admin then
+        let roll = if self.seeds + self.claims == 0 && self.rng.gen_bool(0.8) { 0 } else { self.rng.gen_range(0..100) };
+        match roll {
             0..=44 => json!({"kind": "admin"}),
             45..=49 => json!({"kind": "none"}),
             50..=54 => json!({"kind": "wrong"}),
@@ -916,12 +918,16 @@ impl Gen {
                 if self.rng.gen_bool(0.12) {
                     s["cvar"] = json!(self.pick(&["ws", "prefix", "ext", "empty"]));
                 }
-                if c == self.starts && s["cvar"] == "exact" {
+                // count the claims that probably yield a token (the runner names a secret that does not
+                // exist "unknown", so a wrong guess costs nothing)
+                if c == self.starts && c > 0 && (s["cvar"] == "exact" || s["cvar"] == "ws") && s["role"] != 4 {
+                    if self.pending || self.rng.gen_bool(0.3) {
+                        self.claims += 1;
+                        self.instants.push(self.now + TOKEN_TTL);
+                        self.ids.push(self.now as i64);
+                    }
                     self.pending = false;
                 }
-                self.claims += 1; // upper bound: the runner names a secret that does not exist "unknown"
-                self.instants.push(self.now + TOKEN_TTL);
-                self.ids.push(self.now as i64);
                 s
             }
             34..=45 => {
